@@ -95,6 +95,9 @@ type World struct {
 	Base     afero.Fs
 	Mon      *fsmon.Monitor
 	S        *sched.Sched
+	Slow     map[string]time.Duration // per actor: every backend operation of that actor takes that much longer
+	SlowPath map[string]string        // ... only the operations whose path contains this (empty: all)
+	SlowOnce map[string]bool          // ... only the first such operation (one stall)
 	Rs       Stamper
 	Mem      bool // in-memory backend (afero MemMapFs): its own modification times, on the bubble's clock
 	Start    time.Time
@@ -293,7 +296,21 @@ func (w *World) before(e *fsmon.Event) {
 		w.FaultHit[e.Actor] = fmt.Sprintf("%s %s (%s)", e.Op, filepath.Base(e.Path), f.Kind)
 		delete(w.faults, e.Actor)
 	}
+	slow := w.Slow[e.Actor]
+	if sub := w.SlowPath[e.Actor]; sub != "" && !strings.Contains(e.Path, sub) && !strings.Contains(e.Path2, sub) {
+		slow = 0
+	}
+	if slow > 0 && w.SlowOnce[e.Actor] {
+		if e.Mut {
+			delete(w.Slow, e.Actor) // a single stall, on the first operation that changes something
+		} else {
+			slow = 0
+		}
+	}
 	w.mu.Unlock()
+	if slow > 0 {
+		time.Sleep(slow) // a slow backend for this actor (virtual time inside a bubble)
+	}
 	w.S.Gate(e)
 	w.Rs.Before(e)
 }
@@ -340,7 +357,7 @@ func NewWorldOn(base afero.Fs, mem bool, dir, lockID string, s *sched.Sched) *Wo
 		curCall: map[string]string{}, incAtCall: map[string]int{}, rmTries: map[string]int{}, winStart: map[string]time.Time{}, releasing: map[string]bool{}, holding: map[string]bool{},
 		dead: map[string]bool{}, wasHolder: map[string]bool{},
 		opCount: map[string]int{}, stopAfter: map[string]int{}, stopped: map[string]bool{}, onStop: map[string]func(){},
-		faults: map[string]Fault{}, FaultHit: map[string]string{}}
+		faults: map[string]Fault{}, FaultHit: map[string]string{}, Slow: map[string]time.Duration{}, SlowPath: map[string]string{}, SlowOnce: map[string]bool{}}
 	w.LockPath = filepath.Join(dir, fmt.Sprintf("%v-%v", filesystem.LockFilePrefix, lockID))
 	if mem {
 		w.Rs = &sched.StampObserver{Base: w.Base, OnStamp: w.onStamp}
